@@ -98,6 +98,25 @@ def judge(case):
         err = render_ok(third, {tuple(before) + ('tail', 'more')})
         if err:
             bad('render-after-append', err)
+        # render, change the comment through every mutator, render again: the new text must show
+        for how in ('trim', 'lines-setter', 'lines-extend', 'iadd', 'set_indentor'):
+            cm2 = Comment(R.build(enc, TextBlock))
+            str(cm2)
+            if how == 'trim':
+                cm2.trim()
+                want = None if R.trim_ok(before, cm2.lines) else 'bad-trim'
+            elif how == 'lines-setter':
+                cm2.lines = ['replaced', 'text']
+            elif how == 'lines-extend':
+                cm2.lines.extend(['more'])
+            elif how == 'iadd':
+                cm2 += ['plus', '']
+            else:
+                cm2.set_indentor(cm2._indentizer)  # pylint: disable=protected-access
+            now = list(cm2.lines)
+            err = render_ok(str(cm2), {tuple(now)}) if now else (None if str(cm2) == '' else 'non-empty rendering')
+            if err:
+                bad(f'render-after-{how}', f'{err} | lines now {now!r}')
         # as part of a bigger block (how the generator uses it)
         blk = TextBlock([Comment(R.build(enc, TextBlock)), 'int code;'])
         pieces = union_split(str(blk))
